@@ -28,7 +28,8 @@ theorem restore_exact {cfg : Cfg} (hc : CfgOK cfg) {s t : State} (hs : WF cfg s)
 
 example : CfgOK liveCfg ∧ WF liveCfg liveInit ∧
     WF liveCfg (stepOp liveCfg (.enableLR none true) (stepOp liveCfg (.enablePackrat (some 64) false) liveInit).1).1 :=
-  ⟨⟨by decide, by decide, by decide⟩, ⟨by decide, by decide, by decide⟩, ⟨by decide, by decide, by decide⟩⟩
+  ⟨⟨by decide, by decide, by decide⟩, ⟨by decide, by decide, by decide, by decide⟩,
+   ⟨by decide, by decide, by decide, by decide⟩⟩
 
 theorem synced_brel_eq {w : List Char} : ∀ {l l' : List Expr}, BRelL l l' →
     (∀ e ∈ l, e.copyDef = true → e.ws = w) → (∀ e ∈ l', e.copyDef = true → e.ws = w) → l' = l
@@ -169,7 +170,7 @@ theorem live_restore_total_and_exact (pre body : List Cmd) (hb : Balanced body) 
     m'.ctxErr = false ∧ m'.stack = m.stack ∧ obs m'.st = obs m.st ∧ m'.st.memo = m.st.memo := by
   have hc : CfgOK liveCfg := ⟨by decide, by decide, by decide⟩
   have h0 : MachOK liveCfg ⟨liveInit, [], false⟩ :=
-    ⟨⟨by decide, by decide, by decide⟩, by simp, rfl⟩
+    ⟨⟨by decide, by decide, by decide, by decide⟩, by simp, rfl⟩
   have hm := MachOK_run hc pre h0
   have := restore_total_and_exact hc _ hm body hb
   exact ⟨this.1, this.2.1, this.2.2.1, this.2.2.2.1⟩
@@ -290,10 +291,19 @@ theorem packrat_lr_never_both {cfg : Cfg} (hc : CfgOK cfg) : ∀ (cs : List Cmd)
           intro sv' hsv'
           exact hf sv' (by rw [hstk]; exact List.mem_cons_of_mem _ hsv')
 
+/-- `_parse` is the caching parse function exactly while packrat is flagged enabled — after any
+    command sequence (so `disable_memoization` / `force=True` really switch the packrat mechanism off,
+    and "packrat off" in `packrat_lr_never_both` means the cache is not consulted) -/
+theorem parse_selector_follows_packrat {cfg : Cfg} (hc : CfgOK cfg) (cs : List Cmd) (m : Mach)
+    (hm : MachOK cfg m) :
+    ((run cfg cs m).st.parseSel = .cache ↔ (run cfg cs m).st.packratEnabled = true) :=
+  have h := (MachOK_run hc cs hm).wf
+  ⟨h.sel, fun hp => (h.cache hp).1⟩
+
 /-- for the live package: never both, on any command sequence after import -/
 theorem live_packrat_lr_never_both (cs : List Cmd) : Excl (run liveCfg cs ⟨liveInit, [], false⟩).st :=
   packrat_lr_never_both ⟨by decide, by decide, by decide⟩ cs _
-    ⟨⟨by decide, by decide, by decide⟩, by simp, rfl⟩ (by decide) (by simp)
+    ⟨⟨by decide, by decide, by decide, by decide⟩, by simp, rfl⟩ (by decide) (by simp)
 
 /-! ## 3. `enable_packrat` is idempotent -/
 
@@ -381,6 +391,18 @@ theorem default_ws_scope_partial (cfg : Cfg) (c : String) (s : State) :
     cases cd <;> simp [copyExpr, setDefaultWs]
   · exact Synced_setDefaultWs c s
   · exact BRel_setDefaultWs c s.builtins s.builtins (BRel_refl _)
+
+/-- corollary of `restore_total_and_exact`: an expression built right after a context has been left gets
+    the whitespace set of the default that was in force when the context was entered -/
+theorem new_expr_after_exit {cfg : Cfg} (hc : CfgOK cfg) (m : Mach) (hm : MachOK cfg m)
+    (body : List Cmd) (hb : Balanced body) :
+    newExpr (run cfg (.enter :: body ++ [.exit]) m).st = newExpr m.st := by
+  have h := (restore_total_and_exact hc m hm body hb).2.2.1
+  have hw : (run cfg (.enter :: body ++ [.exit]) m).st.defaultWs = m.st.defaultWs := by
+    have := congrArg Obs.defaultWs h
+    simpa [obs] using this
+  unfold newExpr
+  rw [hw]
 
 example :
     let s := (stepOp liveCfg (.exprSetWs 0 "ab" false) (stepOp liveCfg .newExpr liveInit).1).1
